@@ -1,9 +1,20 @@
 import ExaModel.Driver.Flow
-import ExaModel.Driver.Loop
 open Exa.Driver
 
-def main : IO Unit :=
-  runDriver () (fun st line =>
-    match words line with
-    | "flow" :: ws => flowLine st ws
-    | _ => (st, "bad-op"))
+/-- Line loop of the M-Flow driver: one output line per input line, flushed after every line so the
+    harness can also use it interactively (shrinking asks one question at a time). -/
+partial def flowLoop (h out : IO.FS.Stream) : IO Unit := do
+  let line ← h.getLine
+  if line.isEmpty then return ()
+  let o := match words (line.trimAscii.toString) with
+    | "flow" :: ws => (flowLine () ws).2
+    | _ => "bad-op"
+  out.putStrLn o
+  out.flush
+  flowLoop h out
+
+def main : IO Unit := do
+  let stdin ← IO.getStdin
+  let stdout ← IO.getStdout
+  flowLoop stdin stdout
+  stdout.flush
